@@ -770,6 +770,11 @@ class Engine:
         return VTuple(items)
 
     def e_List(self, e, fr):
+        h = self.builtins.get('__list_literal__')
+        if h is not None:
+            r = h(self, e, fr)
+            if r is not None:
+                return r
         items = []
         for x in e.elts:
             if isinstance(x, ast.Starred):
@@ -845,6 +850,13 @@ class Engine:
                 r = x - y
             elif isinstance(op, ast.Mult):
                 r = x * y
+            elif isinstance(op, ast.Div):
+                dz = _num(b) == 0
+                if self.branch(dz):
+                    self.throw('ZeroDivisionError')
+                xr = z3.ToReal(x) if x.sort() == z3.IntSort() else x
+                yr = z3.ToReal(y) if y.sort() == z3.IntSort() else y
+                return VReal(xr / yr)
             elif isinstance(op, (ast.BitOr, ast.BitAnd)) and both_int:
                 ca, cb = _conc_int(a), _conc_int(b)
                 if ca is None or cb is None:
